@@ -71,6 +71,21 @@ pub fn fields() -> Vec<Field> {
     add("DTLS ClientHello / ServerHello / HelloVerifyRequest version", 16, vec![&DTLS_HANDSHAKE], Box::new(|x| {
         cat::dtls_hs(1, 0, None, 0, |w| cat::client_hello_body(w, x as u16, 0, 1, 1, cat::ExtBlock::Absent, Some(3)))
     }));
+    for cookie in [32usize, 33, 255] {
+        let name: &'static str = Box::leak(format!("DTLS ClientHello version with a {}-byte cookie", cookie).into_boxed_str());
+        add(name, 16, vec![&DTLS_HANDSHAKE], Box::new(move |x| {
+            cat::dtls_hs(1, 0, None, 0, |w| cat::client_hello_body(w, x as u16, 0, 1, 1, cat::ExtBlock::Absent, Some(cookie)))
+        }));
+        let name: &'static str = Box::leak(format!("DTLS HelloVerifyRequest version with a {}-byte cookie", cookie).into_boxed_str());
+        add(name, 16, vec![&DTLS_HANDSHAKE], Box::new(move |x| {
+            cat::dtls_hs(3, 0, None, 0, |w| {
+                w.u16(x as u16);
+                w.block(1, "cookie", |w| {
+                    w.fill(cookie, 7);
+                });
+            })
+        }));
+    }
     add("DTLS ServerHello version", 16, vec![&DTLS_HANDSHAKE], Box::new(|x| {
         cat::dtls_hs(2, 0, None, 0, |w| {
             w.u16(x as u16);
